@@ -1083,6 +1083,23 @@ impl QueryRouter {
                     }
                 }
 
+                // A negative number is a unary minus applied to a number.
+                Expr::UnaryOp {
+                    op: sqlparser::ast::UnaryOperator::Minus,
+                    expr,
+                } => {
+                    if let Expr::Value(Value::Number(value, ..)) = &**expr {
+                        if found {
+                            match format!("-{}", value).parse::<i64>() {
+                                Ok(value) => result.push(ShardingKey::Value(value)),
+                                Err(_) => {
+                                    debug!("Sharding key was not an integer: -{}", value);
+                                }
+                            };
+                        }
+                    }
+                }
+
                 Expr::Value(Value::Placeholder(placeholder)) => {
                     match placeholder.replace('$', "").parse::<i16>() {
                         Ok(placeholder) => result.push(ShardingKey::Placeholder(placeholder)),
